@@ -34,27 +34,28 @@ type Config struct {
 }
 
 type HarnessResult struct {
-	Harness     string
-	Paths       []*PathResult
-	Completed   int
-	Crashed     int
-	Aborted     int
-	Ended       int
-	Violations  []*Violation
-	Covers      map[string]bool
-	Asserts     map[string]int
-	Funcs       map[string]bool
-	Stubs       map[string]bool
-	Assumptions map[string]bool
-	Stats       solver.Stats
-	Steps       int64
-	Decisions   int64
-	Witnesses   []*WitnessRec
-	AbortWhy    map[string]int
-	CrashWhy    map[string]int
-	Truncated   bool
-	Wall        time.Duration
-	Unknowns    int
+	Harness       string
+	Paths         []*PathResult
+	Completed     int
+	Crashed       int
+	Aborted       int
+	Ended         int
+	Violations    []*Violation
+	Covers        map[string]bool
+	Asserts       map[string]int
+	Funcs         map[string]bool
+	Stubs         map[string]bool
+	Assumptions   map[string]bool
+	Stats         solver.Stats
+	Steps         int64
+	Decisions     int64
+	Witnesses     []*WitnessRec
+	AbortWhy      map[string]int
+	CrashWhy      map[string]int
+	Truncated     bool
+	Wall          time.Duration
+	Unknowns      int
+	BranchUnknown int
 }
 
 type WitnessRec struct {
@@ -302,6 +303,7 @@ func Explore(prog *ssa.Program, fn *ssa.Function, cfg *Config) *HarnessResult {
 			hr.Steps += res.Steps
 			hr.Decisions += int64(len(res.Decisions))
 			hr.Unknowns += res.Unknowns
+			hr.BranchUnknown += res.BranchUnknown
 			if res.Witness != nil && len(hr.Witnesses) < cfg.Witnesses {
 				hr.Witnesses = append(hr.Witnesses, &WitnessRec{Decisions: res.Decisions, W: res.Witness})
 			}
